@@ -20,7 +20,8 @@ func init() {
 			"R6 in the AST differ, list elements the edit script marks Identity are carried over as unchanged (their comments stay attached in the new snapshot). " +
 			"NOT decided: the interval computation itself (astdiff regions + Myers diff + line merging) — algorithmic, not decidable by shape; attachment of comments by go/printer." +
 			" R8 edit regions stop at the neighbours' comments (regions[i] reported as computed, monotone comment clamps, position-only classification in commentsFor); R1 also: File.Comments is only assigned the clean-up step's filtered own list." +
-			" R9 the text emitted for a file is not a window into a buffer re-used for another file (C03-R12).",
+			" R9 the text emitted for a file is not a window into a buffer re-used for another file (C03-R12)." +
+			" R10 the astdiff snapshot is taken with ast.NewCommentMap(fset, file, file.Comments) of the file being patched, on every path.",
 		Trusted:     commonTrusted,
 		Assumptions: commonAssumptions,
 	})
